@@ -3,7 +3,7 @@
 # usage: tools/trial.sh <patch.diff> <Cxx> [<Cyy> ...]
 set -u
 PATCH="$(realpath "$1")"; shift
-T=/var/tmp/vtrial
+T=/var/tmp/vtrial-$(basename $(dirname $PATCH))
 mkdir -p $T
 rsync -a --delete --exclude .git --exclude replays --exclude evidence /verif/ $T/verif/
 git -C /repo worktree remove --force $T/repo 2>/dev/null
@@ -18,3 +18,4 @@ for P in "$@"; do
   VERIF_REPO=$T/repo PYTHONPATH=$T/repo/src ./check $P 2>&1 | grep -v "^BROKEN" | tail -6
 done
 git -C /repo worktree remove --force $T/repo
+rm -rf $T
